@@ -18,7 +18,7 @@ from ref import broadcast as B
 ID = "C06"
 LEVEL = "exploration"
 RULE = (
-    "lengths 0..400 x 6 leading-byte variants x 3 fills; captures +-1..3 bytes; model codes (thorough: all 65,536 x 3 frame "
+    "lengths 0..400 x 7 leading-byte variants (incl. magic + own length) x 3 fills; captures +-1..3 bytes; model codes (thorough: all 65,536 x 3 frame "
     "lengths; quick: known codes, their 1-bit neighbours, every 61st) each sent as one real datagram and observed alone. "
     "non-trivial = the datagram reached datagram_received (one loop iteration consumed it) and the four counters were read; "
     "distinct by datagram bytes."
@@ -30,7 +30,7 @@ ASSUMPTIONS = [
 
 LENS_OK = (165, 168, 159)
 KNOWN = {v[0] for v in B.TYPES.values()}
-LEADS = {"magic": b"\xfe\xf0", "fe-only": b"\xfe\x00", "swapped": b"\xf0\xfe", "fef1": b"\xfe\xf1", "zeros": b"\x00\x00", "none": b""}
+LEADS = {"magic": b"\xfe\xf0", "magic-len": None, "fe-only": b"\xfe\x00", "swapped": b"\xf0\xfe", "fef1": b"\xfe\xf1", "zeros": b"\x00\x00", "none": b""}
 TEMPLATES = {165: B.HEATER_T, 168: B.BREEZE_T, 159: B.RUNNER_T}
 
 
@@ -71,14 +71,20 @@ def all_cases(tier):
     for L in LENS_OK:
         for c in codes:
             cs.append({"kind": "code", "len": L, "code": c})
+        # the same unknown code again and again: every one of them must be reported
+        for c in (0x0000, 0x7F7F, 0xFFFF, 0x0E02):
+            for rep in range(3):
+                cs.append({"kind": "code", "len": L, "code": c, "rep": rep})
     return cs
 
 
 def build(case):
     k = case["kind"]
     if k == "shape":
-        lead = LEADS[case["lead"]]
         n = case["n"]
+        lead = LEADS[case["lead"]]
+        if lead is None:  # magic followed by the datagram's own length, little-endian (a self-consistent header)
+            lead = b"\xfe\xf0" + n.to_bytes(2, "little")
         body = fill_bytes(case["fill"], n)
         return (lead + body[len(lead):])[:n] if n >= len(lead) else lead[:n]
     if k == "resize":
